@@ -20,6 +20,21 @@ PARTS = {
     "NUM": ("num", "num"), "INC0": ("inc0", "num"), "INC1": ("inc1", "num1"),
 }
 PART_NAMES = sorted(PARTS, key=lambda p: (-len(p), p))
+
+# Legacy {brace} parts live in the same table under an "L." prefix (ref/legacy.py builds trees with them).
+LEGACY_PARTS = {
+    "L.year": ("year_y", "year4"), "L.yyyy": ("year_y", "year4"), "L.yy": ("year_y", "year2p"),
+    "L.month": ("month", "p2:1:12"), "L.month_short": ("month", "n:1:12"),
+    "L.dom": ("dom", "p2:1:31"), "L.dom_short": ("dom", "n:1:31"), "L.doy": ("doy", "p3:1:366"),
+    "L.quarter": ("quarter", "q"),
+    "L.build_no": ("bid", "build4"), "L.bid": ("bid", "build4"), "L.BID": ("bid", "bld"),
+    "L.BB": ("bid", "bldpad:2"), "L.BBB": ("bid", "bldpad:3"), "L.BBBB": ("bid", "bldpad:4"), "L.BBBBB": ("bid", "bldpad:5"),
+    "L.tag": ("tag", "tag"), "L.release_tag": ("tag", "tag"), "L.pep440_tag": ("tag", "pytag0"),
+    "L.MAJOR": ("major", "num"), "L.MINOR": ("minor", "num"), "L.PATCH": ("patch", "num"),
+    "L.MM": ("minor", "numpad:2"), "L.MMM": ("minor", "numpad:3"), "L.MMMM": ("minor", "numpad:4"),
+    "L.PP": ("patch", "numpad:2"), "L.PPP": ("patch", "numpad:3"), "L.PPPP": ("patch", "numpad:4"),
+}
+PARTS.update(LEGACY_PARTS)
 CAL_FIELDS = ("year_y", "year_g", "quarter", "month", "dom", "doy", "week_w", "week_u", "week_v")
 RESETTABLE = {"major": 0, "minor": 0, "patch": 0, "num": 0, "inc0": 0, "inc1": 1}
 ZERO = {"major": 0, "minor": 0, "patch": 0, "num": 0, "inc0": 0, "tag": "final"}
@@ -143,10 +158,17 @@ def render_part(name, state):
         return val if val is not None else "final"
     if kind == "pytag":
         return PYTAG[val if val is not None else "final"]
-    if kind == "build":
+    if kind in ("build", "build4"):
         return str(val)
     if kind == "bld":
         return str(int(val))
+    if kind.startswith("bldpad:"):
+        return str(int(val)).zfill(int(kind.split(":")[1]))
+    if kind.startswith("numpad:"):
+        return str(val).zfill(int(kind.split(":")[1]))
+    if kind == "pytag0":
+        tag = val if val is not None else "final"
+        return "" if tag == "final" else PYTAG[tag] + "0"
     if val is None:
         raise KeyError("state has no value for %s (%s)" % (name, field))
     if kind == "year4":
@@ -210,6 +232,12 @@ def _part_candidates(name, text, pos):
             q += 1
         return q
 
+    if kind == "pytag0":
+        for w in ("post0", "dev0", "rc0", "a0", "b0"):
+            if text.startswith(w, pos):
+                yield (pos + len(w), w)
+        yield (pos, "")
+        return
     if kind in ("tag", "pytag"):
         words = TAGS if kind == "tag" else ("post", "dev", "rc", "a", "b")
         for w in sorted(words, key=lambda w: -len(w)):
@@ -238,6 +266,13 @@ def _part_candidates(name, text, pos):
         return
     if kind in ("num", "build"):
         for e in range(end, pos, -1):
+            yield (e, text[pos:e])
+        return
+    if kind == "build4" or kind.startswith("numpad:") or kind.startswith("bldpad:"):
+        width = 4 if kind == "build4" else int(kind.split(":")[1])
+        if kind.startswith("bldpad:") and text[pos] == "0":
+            return
+        for e in range(end, pos + width - 1, -1):
             yield (e, text[pos:e])
         return
     if kind in ("num1", "bld"):
@@ -305,7 +340,9 @@ def raw_to_state(raw):
             val = text
         elif kind == "pytag":
             val = PYTAG_INV[text]
-        elif kind in ("build", "bld"):
+        elif kind == "pytag0":
+            val = PYTAG_INV[text[:-1]] if text else "final"
+        elif kind in ("build", "bld", "build4") or kind.startswith("bldpad:"):
             val = text
         elif kind in ("year2", "year2p"):
             val = 2000 + int(text)
